@@ -17,4 +17,16 @@ theorem roundtrip_cfg_indep (fn : FnRow) (sh : Shape) (a : Args α) (h : sh.uses
   unfold roundtrip
   rw [build_cfg_indep fn sh a h]
 
+/-- an argument with its nil form forgotten -/
+def ArgForm.forget : ArgForm α → ArgForm α
+  | .typedNil _ => .untypedNil
+  | a => a
+
+/-- The builders do not distinguish a nil pointer of a concrete type from the untyped nil: in every
+    argument position both mean "no selectors / no elements". -/
+theorem builder_nil_forms_agree (cfg : Cfg) (fn : FnRow) (x : α) (a b c : ArgForm α) (pws : Bool) :
+    readCmdAny cfg fn x a b = readCmdAny cfg fn x a.forget b.forget ∧
+    notifyOrWriteCmdAny cfg fn x a b pws c = notifyOrWriteCmdAny cfg fn x a.forget b.forget pws c.forget := by
+  cases a <;> cases b <;> cases c <;> exact ⟨rfl, rfl⟩
+
 end Spine.Cmd
